@@ -347,7 +347,7 @@ UnderAgree == \A p \in Inputs, k \in AllDirs : Under(p, k) <=> UnderSeg(p, k)
    prefix with a directory, a path with an inner occurrence of its directory, a nested pair
    of directories, an outside absolute path with a shorter relative form, a regexp match.   *)
 HasCovered      == \E p \in Inputs, k \in AllDirs : Under(p, k) /\ p # k
-HasStringPrefix == \E p \in Inputs, k \in AllDirs : k # ROOT /\ HasPrefix(p, k) /\ ~Under(p, k)
+HasStringPrefix == \E p \in Inputs, k \in AllDirs : k # ROOT /\ k # <<>> /\ HasPrefix(p, k) /\ ~Under(p, k)
 HasInner        == \E p \in Inputs, k \in AllDirs : Under(p, k) /\ k # ROOT /\ RepAll(Rest(p, k), k, <<>>) # Rest(p, k)
 HasNested       == \E p \in Inputs, k1, k2 \in AllDirs : k1 # k2 /\ Under(p, k1) /\ Under(p, k2)
 HasShorterRel   == \E p \in Inputs : Abs(p) /\ (\A k \in AllDirs : ~Under(p, k)) /\ Len(Rel(Cwd, p)) < Len(p)
